@@ -58,6 +58,7 @@ pub fn choose_enc(ch: &mut Chooser) -> XEnc {
         explicit_t_n: ch.flag("enc.explicit_t_n"),
         empty_rows: ch.flag("enc.empty_row_elements"),
         reorder_members: ch.flag("enc.member_order"),
+        rid_shuffle: ch.flag("enc.relationship_ids_shuffled"),
     }
 }
 
@@ -103,6 +104,7 @@ fn enc_tag(e: &XEnc) -> String {
     if e.explicit_t_n { v.push("t=n"); }
     if e.empty_rows { v.push("empty-rows"); }
     if e.reorder_members { v.push("member-order"); }
+    if e.rid_shuffle { v.push("rid-shuffle"); }
     if v.is_empty() { "default".into() } else if v.len() <= 2 { v.join("+") } else { format!("{}+{}+more", v[0], v[1]) }
 }
 
@@ -166,7 +168,7 @@ fn position_sets(k: usize) -> Vec<Vec<(u32, u32)>> {
 
 pub fn check(rep: &Report) {
     let t = crate::thorough(&rep.tier);
-    rep.rule("logical sheet = anchor {A1, AB6, ZZ100, XFA1048573} x every set of <= k cells in a 3x4 window x 22 cell kinds (+ optional second sheet); encoding = 10 variation points (prefix, implicit row/cell r, dimension absent/exact/too small/too large, target spelling, part-name case, stored/deflated, t=n, empty row elements, member order); per position set all choice vectors with <= d deviations from (number cells, default encoding), plus the full encoding product on single-cell sheets; non-trivial = at least one non-default choice; distinct = by file bytes");
+    rep.rule("logical sheet = anchor {A1, AB6, ZZ100, XFA1048573} x every set of <= k cells in a 3x4 window x 22 cell kinds (+ optional second sheet); encoding = 11 variation points (prefix, implicit row/cell r, dimension absent/exact/too small/too large, target spelling, part-name case, stored/deflated, t=n, empty row elements, member order, relationship ids not in sheet order); per position set all choice vectors with <= d deviations from (number cells, default encoding), plus the full encoding product on single-cell sheets; non-trivial = at least one non-default choice; distinct = by file bytes");
     rep.assume("generator emits only ECMA-376-legal variations listed in gen/xlsx.rs; r:-prefixed relationship ids; implicit r only where the cursor rule positions the element correctly");
     let kmax = if t { 3 } else { 2 };
     let dev = if t { 3 } else { 2 };
@@ -187,7 +189,7 @@ pub fn check(rep: &Report) {
         stats.lock().unwrap().merge(&st);
         crate::engine::crumb::clear();
     });
-    // full encoding product (4096 encodings) on representative single-cell / two-cell sheets with fixed kinds
+    // full encoding product (8192 encodings) on representative single-cell / two-cell sheets with fixed kinds
     let reps: Vec<((u32, u32), Vec<(u32, u32)>)> = ANCHORS.iter().flat_map(|a| vec![(*a, vec![(0u32, 0u32)]), (*a, vec![(1, 2)]), (*a, vec![(0, 1), (2, 3)]), (*a, vec![(1, 0), (1, 1)])]).collect();
     reps.par_iter().for_each(|(a, p)| {
         let mut st = Stats::default();
